@@ -16,6 +16,8 @@ from __future__ import annotations
 
 from typing import Any, Callable, List, Optional, Tuple
 
+import datetime as _real_dt
+
 import z3
 
 from vt import sym
@@ -37,6 +39,14 @@ def _zz(x: Any) -> Any:
 
 def _isint(x: Any) -> bool:
     return isinstance(x, SymInt) or (isinstance(x, int) and not isinstance(x, bool))
+
+
+def _td(o: Any) -> Any:
+    """A real `datetime.timedelta` (a module- or class-level constant of the code under analysis, built
+    before the names were swapped) is the model value with the same number of microseconds."""
+    if isinstance(o, _real_dt.timedelta):
+        return TD(_us=(o.days * 86400 + o.seconds) * US + o.microseconds)
+    return o
 
 
 class Seconds:
@@ -148,6 +158,7 @@ class TD:
         return bool(self.us != 0)
 
     def __add__(self, o: Any) -> Any:
+        o = _td(o)
         if isinstance(o, TD):
             return TD(_us=self.us + o.us)
         if isinstance(o, DT):
@@ -157,7 +168,12 @@ class TD:
     __radd__ = __add__
 
     def __sub__(self, o: Any) -> Any:
+        o = _td(o)
         return TD(_us=self.us - o.us) if isinstance(o, TD) else NotImplemented
+
+    def __rsub__(self, o: Any) -> Any:
+        o = _td(o)
+        return TD(_us=o.us - self.us) if isinstance(o, TD) else NotImplemented
 
     def __neg__(self) -> "TD":
         return TD(_us=-self.us)
@@ -171,29 +187,41 @@ class TD:
     __rmul__ = __mul__
 
     def __floordiv__(self, k: Any) -> Any:
+        k = _td(k)
         if isinstance(k, int) and k > 0:
             return TD(_us=self.us // k)
         if isinstance(k, TD) and isinstance(k.us, int) and k.us > 0:
             return self.us // k.us
         return NotImplemented
 
+    def __truediv__(self, k: Any) -> Any:
+        k = _td(k)
+        if isinstance(k, TD) and isinstance(k.us, int) and k.us == US:
+            return Seconds(self.us)  # td / timedelta(seconds=1) is total_seconds()
+        raise sym.HarnessError("timedelta model: true division other than by one second is a float computation")
+
     def __mod__(self, k: Any) -> Any:
+        k = _td(k)
         if isinstance(k, TD) and isinstance(k.us, int) and k.us > 0:
             return TD(_us=self.us % k.us)
         return NotImplemented
 
     def __divmod__(self, k: Any) -> Any:
+        k = _td(k)
         if isinstance(k, TD) and isinstance(k.us, int) and k.us > 0:
             return self.us // k.us, TD(_us=self.us % k.us)
         return NotImplemented
 
     def _cmp(self, o: Any, op: Callable[[Any, Any], Any]) -> Any:
+        o = _td(o)
         return op(self.us, o.us) if isinstance(o, TD) else NotImplemented
 
     def __eq__(self, o: Any) -> Any:  # type: ignore[override]
+        o = _td(o)
         return (self.us == o.us) if isinstance(o, TD) else False
 
     def __ne__(self, o: Any) -> Any:  # type: ignore[override]
+        o = _td(o)
         return (self.us != o.us) if isinstance(o, TD) else True
 
     def __lt__(self, o: Any) -> Any:
@@ -407,6 +435,7 @@ class DT:
 
     # ---- arithmetic / comparison
     def __add__(self, o: Any) -> Any:
+        o = _td(o)
         if isinstance(o, TD):
             return DT(self.us + o.us, self.off, self.aware, self.tz)
         return NotImplemented
@@ -414,6 +443,7 @@ class DT:
     __radd__ = __add__
 
     def __sub__(self, o: Any) -> Any:
+        o = _td(o)
         if isinstance(o, TD):
             return DT(self.us - o.us, self.off, self.aware, self.tz)
         if isinstance(o, DT):
@@ -600,6 +630,19 @@ def validate(n: int, seed: int) -> Tuple[int, List[str]]:
         checks += [
             ("le", d <= d2, m <= mm2), ("lt", d < d2, m < mm2), ("eq", d == d2, m == mm2),
             ("sub", (d - d2) // real.timedelta(microseconds=1), (m - mm2).us),
+        ]
+        one = real.timedelta(seconds=1)
+        k_r = real.timedelta(microseconds=rng.choice([1, 1000, US, MIN, 7 * US + 3]))
+        checks += [
+            ("add real td", from_real(d + td_r), ((m + td_r).us, (m + td_r).off if off is not None else None)),
+            ("sub real td", from_real(d - td_r), ((m - td_r).us, (m - td_r).off if off is not None else None)),
+            ("td + real td", (td_r + k_r) // real.timedelta(microseconds=1), (td_m + k_r).us),
+            ("real td - td", (k_r - td_r) // real.timedelta(microseconds=1), (k_r - td_m).us),
+            ("td // real td", td_r // k_r, td_m // k_r),
+            ("td % real td", (td_r % k_r) // real.timedelta(microseconds=1), (td_m % k_r).us),
+            ("-(-td // 1s)", -(-td_r // one), -(-td_m // one)),
+            ("td <= real td", td_r <= k_r, td_m <= k_r), ("td == real td", td_r == k_r, td_m == k_r),
+            ("int(td / 1s)", int(td_r / one), (td_m / one).__vt_int__()),
         ]
         for name, a, b in checks:
             done += 1
